@@ -86,28 +86,56 @@ def rule_abstract(ctx):
     prog = []
     for p in paths:
         if p.kind != 'return':
-            ctx.bad('AI', 'push_delta:shape', 'loop with more than two iterations or unrecognised shape in push_delta')
-            return
+            # a path cut off after max_visits loop iterations: more evictions per call than the abstract run ever needs
+            continue
         conds = []
         for v, labs, _bb in p.conds:
-            base = v.split('#')[0]
+            base = v.split('#')[0].split('~')[0]
             if base.startswith('cmp(') and 'VecDeque::len(self.deltas)' in base and 'self.keep' in base:
                 first_len = base.index('VecDeque::len') < base.index('self.keep')
-                conds.append((set(labs) if first_len else set({'Less': 'Greater', 'Greater': 'Less', 'Equal': 'Equal'}[x] for x in labs)))
-            elif base.startswith('cmp(') or base.startswith('call:'):
-                if 'pop_back' in base:
+                rels = set(labs) if first_len else set({'Less': 'Greater', 'Greater': 'Less', 'Equal': 'Equal'}[x] for x in labs)
+                conds.append(('lenkeep', rels))
+            elif base.startswith('call:VecDeque::is_empty(self.deltas)') or base.startswith('Not(call:VecDeque::is_empty(self.deltas)'):
+                neg = base.startswith('Not(')
+                want_empty = ('true' in labs) != neg
+                conds.append(('empty', want_empty))
+            elif base.startswith('cmp(') and 'VecDeque::len(self.deltas)' in base and re.search(r'const\((\d+)\)', base):
+                cst = int(re.search(r'const\((\d+)\)', base).group(1))
+                first_len = base.index('VecDeque::len') < base.index('const(')
+                rels = set(labs) if first_len else set({'Less': 'Greater', 'Greater': 'Less', 'Equal': 'Equal'}[x] for x in labs)
+                conds.append(('lenconst', (cst, rels)))
+            elif base.startswith('cmp(') or base.startswith('call:') or base.startswith('Not('):
+                if 'pop_back' in base or 'pop_front' in base:
                     continue
-                ctx.bad('AI', 'push_delta:unknown-condition', 'push_delta branches on `%s` (not len vs keep): shape not recognised' % base)
+                ctx.bad('AI', 'push_delta:unknown-condition', 'push_delta branches on `%s` (not a test of the queue length): shape not recognised' % base)
                 return
         evs = []
         for s in p.events:
             nm = s.callee.split('::')[-1]
             if nm in ('pop_back', 'pop_front', 'push_front', 'push_back', 'truncate', 'clear'):
                 arg = arg_desc(s, 1) if len(s.term['args']) > 1 else None
-                evs.append((nm, arg))
-        prog.append((conds, evs))
+                evs.append((nm, arg, s.bb))
+        # timeline: conditions and queue operations in path order
+        cq, eq = {}, {}
+        ci = 0
+        for v, labs, bb in p.conds:
+            base = v.split('#')[0].split('~')[0]
+            if 'pop_back' in base or 'pop_front' in base:
+                continue
+            if ci < len(conds):
+                cq.setdefault(bb, []).append(conds[ci])
+                ci += 1
+        for nm, arg, bb in evs:
+            eq.setdefault(bb, []).append((nm, arg))
+        timeline = []
+        for bb in p.blocks:
+            if eq.get(bb):
+                timeline.append(('ev', eq[bb].pop(0)))
+            if cq.get(bb):
+                timeline.append(('cond', cq[bb].pop(0)))
+        prog.append((conds, [(nm, arg) for nm, arg, _bb in evs], timeline))
     ctx.floor('AI', 'paths of push_delta', len(prog), 1)
-    ctx.extra['transfer_function'] = [dict(conditions=[sorted(c) for c in cs], events=es) for cs, es in prog]
+    ctx.extra['transfer_function'] = [dict(conditions=[str(c) for c in cs], events=es) for cs, es, _t in prog]
 
     def rel(a, b):
         return 'Less' if a < b else ('Equal' if a == b else 'Greater')
@@ -117,22 +145,31 @@ def rule_abstract(ctx):
         for step in range(40):
             # choose the path whose conditions hold, evaluating them in order with the evolving len
             chosen = None
-            for conds, evs in prog:
-                cur = ln
-                ok = True
-                ei = 0
-                # conditions are evaluated interleaved with pops in loops: simulate by replaying events between conditions
+            for conds, evs, timeline in prog:
                 sim = ln
-                k = 0
-                evlist = list(evs)
-                for c in conds:
-                    if rel(sim, keep) not in c:
-                        ok = False
-                        break
-                    # consume one pop if the next event is a pop (loop form `while len >= keep { pop }`)
-                    if k < len(evlist) and evlist[k][0] in ('pop_back', 'pop_front'):
-                        sim = max(sim - 1, 0)
-                        k += 1
+                ok = True
+                for what, x in timeline:
+                    if what == 'cond':
+                        kind, c = x
+                        if kind == 'lenkeep':
+                            holds = rel(sim, keep) in c
+                        elif kind == 'empty':
+                            holds = (sim == 0) == c
+                        else:
+                            holds = rel(sim, c[0]) in c[1]
+                        if not holds:
+                            ok = False
+                            break
+                    else:
+                        nm, arg = x
+                        if nm in ('pop_back', 'pop_front'):
+                            sim = max(sim - 1, 0)
+                        elif nm in ('push_front', 'push_back'):
+                            sim += 1
+                        elif nm == 'truncate':
+                            sim = min(sim, keep if (arg and 'keep' in arg) else sim)
+                        elif nm == 'clear':
+                            sim = 0
                 if ok:
                     chosen = (conds, evs)
                     break
